@@ -38,7 +38,15 @@ def main():
         r0 = sh(env)
         out["demo_clean_exit"] = r0.returncode
         if "--skip-tests" not in sys.argv:
-            base = passed_set(wt)
+            # the PASSED set of the unchanged tree is the same for every seed evaluated against the same /repo HEAD: computed once
+            head = sh("git -C /repo rev-parse --short HEAD").stdout.strip()
+            cache = "/tmp/seed/basepass-%s.txt" % head
+            if os.path.exists(cache) and os.path.getsize(cache) > 1000:
+                base = set(open(cache).read().split("\n")) - {""}
+            else:
+                base = passed_set(wt)
+                if len(base) >= 150 and os.path.isdir("/tmp/seed"):
+                    open(cache, "w").write("\n".join(sorted(base)))
         a = sh("git -C %s apply %s" % (wt, patch))
         out["patch_applies"] = a.returncode == 0
         if not out["patch_applies"]:
